@@ -85,7 +85,7 @@ DRIVERS = {
 
 
 def bounds(tier):
-    return {'drivers': sorted(DRIVERS), 'preemption_bound': 1 if tier == 'quick' else '2 for two-thread drivers on the quick point files, 1 on the wide ones',
+    return {'drivers': sorted(DRIVERS), 'preemption_bound': 1 if tier == 'quick' else '3 for wsdl|wsdl and 2 for every other request pair with server/wsgi.py as the point file; 1 on the wide file sets and on all spyne files',
             'horizon_steps': 20000, 'granularity': 'Python line events in the listed files + cooperative lock operations'}
 
 
@@ -189,12 +189,15 @@ def shards(tier):
         else:
             nsl = 16
             for sl in range(nsl):
+                # deeper preemption bounds on the transport module alone (the locks and caches of the WSGI server live
+                # there; ~170 preemption points per request pair): 3 for the ?wsdl pair, 2 for every other pair
                 if len(reqs) == 2:
-                    out.append({'driver': d, 'files': q, 'bound': 2, 'tier': tier, 'slice': [sl, nsl]})
+                    out.append({'driver': d, 'files': ['server/wsgi.py'], 'bound': 3 if d == 'wsdl|wsdl' else 2, 'tier': tier, 'slice': [sl, nsl]})
                 out.append({'driver': d, 'files': t, 'bound': 1, 'tier': tier, 'slice': [sl, nsl]})
     if tier == 'thorough':
         for sl in range(16):
             out.append({'driver': 'rpc|rpc-same-method', 'files': 'ALL', 'bound': 1, 'tier': tier, 'slice': [sl, 16]})
+            out.append({'driver': 'wsdl|rpc', 'files': WIDE, 'bound': 1, 'tier': tier, 'slice': [sl, 16]})
     return out
 
 
@@ -300,7 +303,7 @@ def run_shard(shard, only=None):
             firsts = firsts[sl[0]::sl[1]]
         for prefix, cost in firsts:
             st = sched.explore(lambda pr: execute(d, pr, pf), check, bound, start_prefix=prefix, start_cost=cost,
-                               budget=(4000 if shard['tier'] == 'thorough' else 3000))
+                               budget=(40000 if shard['tier'] == 'thorough' else 3000))
             if st['capped']:
                 res['notes']['budget-cap-hit'] = res['notes'].get('budget-cap-hit', 0) + 1
     res['sets']['sched_states'] = list(states)
